@@ -607,13 +607,13 @@ Definition i_log_console_handler := ctor [RO] [] [].
    file handler "log/<process>.log"; both are attached to the default logger.  0 = rot_file_handler.fp *)
 Definition log_simple_init : list stmt := [ Call lrh_init false (H 89 [RF]); RO ].
 Definition i_log_simple_init := ctor log_simple_init fp_destroy [0].
-(* log/log.c muggle_log_complicated_init: the result of muggle_log_file_time_rot_handler_init is DROPPED - a failed
-   fopen is answered with success and the handler (fp == NULL) is attached: recorded known finding *)
-Definition log_complicated_init : list stmt := [ Call ltr_init false []; RO ].
+(* log/log.c muggle_log_complicated_init.  Unchanged tree (_orig): the result of muggle_log_file_time_rot_handler_init
+   was DROPPED - a failed fopen was answered with success and the handler (fp == NULL) attached. *)
+Definition log_complicated_init_orig : list stmt := [ Call ltr_init false []; RO ].
+Definition i_log_complicated_init_orig := ctor log_complicated_init_orig fp_destroy [0].
+(* ... after the repair fixes/C18-log-complicated-init-reports-failure.patch: the failure is returned *)
+Definition log_complicated_init : list stmt := [ Call ltr_init false (H 90 [RF]); RO ].
 Definition i_log_complicated_init := ctor log_complicated_init fp_destroy [0].
-(* ... with the proposed repair fixes/C18-log-complicated-init-reports-failure.patch *)
-Definition log_complicated_init_fixed : list stmt := [ Call ltr_init false (H 90 [RF]); RO ].
-Definition i_log_complicated_init_fixed := ctor log_complicated_init_fixed fp_destroy [0].
 
 (* os/os.c muggle_os_fopen (the file handlers open their files through it): 0 = the FILE* handed to the caller *)
 Definition i_os_fopen := ctor [Alloc 0; IfNull [0] (H 91 [RF]); RO] fp_destroy [0].
@@ -671,14 +671,13 @@ Definition inst_table : list (nat * scn) :=
     (304, i_log_simple_init); (305, i_log_complicated_init); (306, i_socket_create); (307, i_tcp_listen);
     (308, i_tcp_connect); (309, i_tcp_bind); (310, i_tcp_bind_connect); (311, i_udp_bind); (312, i_udp_connect);
     (313, i_mcast_join); (314, i_socketpair); (315, i_heap_sort); (316, i_ma_ring_get); (317, i_os_fopen);
-    (* the proposed repair of muggle_log_complicated_init (not in the repository yet; no differential run) *)
-    (405, i_log_complicated_init_fixed);
     (* transcriptions of the unchanged (defective) code *)
     (100, i_chan_mutex_orig); (103, i_ma_ring_orig); (104, i_dbuf_orig); (109, i_sowr_orig);
     (110, i_ts_orig); (118, i_avl_init_orig); (121, i_ht_init_orig); (126, i_ll_init_orig);
     (128, i_queue_init_orig); (133, i_trie_init_orig); (138, i_evloop_epoll_orig);
     (139, i_evloop_poll_orig); (140, i_evloop_select_orig); (141, i_evloop_epoll_pool_orig);
-    (145, i_alog_init_orig); (146, i_alog_log_orig); (147, i_chan_default_orig) ].
+    (145, i_alog_init_orig); (146, i_alog_log_orig); (147, i_chan_default_orig);
+    (195, i_log_complicated_init_orig) ].
 
 Fixpoint lookup (id : nat) (t : list (nat * scn)) : option scn :=
   match t with
